@@ -64,6 +64,7 @@ type c09Op struct {
 	Fit     int    `json:"fit,omitempty"` // 0 explicit length; 1 threshold' == balance; 2 threshold' == balance+1
 	HashIdx int    `json:"hash_idx,omitempty"`
 	Z       uint32 `json:"z,omitempty"`
+	ZHi     uint32 `json:"z_hi,omitempty"` // upper half of the 64-bit length register (solicit / forget / query)
 	BlobIdx int    `json:"blob_idx,omitempty"`
 	Target  int    `json:"target,omitempty"` // 0 self, 1 other, 2 absent, 3 last created
 	NewL    uint32 `json:"new_l,omitempty"`
@@ -284,9 +285,15 @@ func c09GenSeq(rt *rapid.T) c09SeqInput {
 			op.HashIdx, op.Z = p.h, p.z
 			op.Fit = rapid.SampledFrom([]int{0, 0, 0, 0, 1, 2}).Draw(rt, "fit")
 			pairs = append(pairs, p)
+			if rapid.IntRange(0, 7).Draw(rt, "z_wide") == 0 {
+				op.ZHi, op.Fit = rapid.SampledFrom([]uint32{1, 1, 2, 1 << 31, 1<<32 - 1}).Draw(rt, "z_hi"), 0
+			}
 		case "forget", "query":
 			p := pickPair()
 			op.HashIdx, op.Z = p.h, p.z
+			if rapid.IntRange(0, 15).Draw(rt, "z_wide") == 0 {
+				op.ZHi = rapid.SampledFrom([]uint32{1, 1, 2, 1 << 31, 1<<32 - 1}).Draw(rt, "z_hi")
+			}
 		case "provide":
 			op.Target = rapid.SampledFrom([]int{0, 0, 1, 1, 2}).Draw(rt, "target")
 			op.BlobIdx = rapid.IntRange(0, len(in.Blobs)-1).Draw(rt, "blob_idx")
@@ -774,8 +781,13 @@ func c09CheckSeq(c *kit.Case, in c09SeqInput) {
 			canon = c09CanonLookupKey(h, z)
 			_, existed = ent[canon]
 			mem.Write(c09AddrHash, h[:])
-			regs[7], regs[8] = c09AddrHash, uint64(z)
-			if op.Kind == "solicit" {
+			regs[7], regs[8] = c09AddrHash, uint64(op.ZHi)<<32|uint64(z)
+			if op.ZHi != 0 {
+				// a length register that does not fit 32 bits: no expectation about the outcome, the
+				// recorded-equals-derived invariants below hold whatever the call decides
+				c.Class(op.Kind + "_length_register_above_2^32")
+			}
+			if op.Kind == "solicit" && op.ZHi == 0 {
 				expectFULLKnown = true
 				if existed {
 					thrAfter = thr0
